@@ -17,7 +17,7 @@ import (
 const c16MaxHay = 160
 
 func init() {
-	register(&Prop{ID: "C16", N: 6000, Quick: 500, Variants: cpuVariants,
+	register(&Prop{ID: "C16", N: 6000, Quick: 3000, Variants: cpuVariants,
 		Assume: []string{"Find(h,s) is compared with the one-line definition min{i>=s : some literal is a prefix of h[i:]}; complete prefilters with stdlib regexp on the alternation of the quoted literals", "haystacks sit flush against PROT_NONE pages (both ends alternately)"},
 		Rule:   "case = one literal set (1-70 literals, lengths 1-12, shared prefixes/nibbles, duplicates, one a prefix or suffix of another) with 8 haystacks (literal at every offset class relative to 16/32/64-byte strides, near misses before the real one); every prefilter the set can be built into (Builder: memchr/memmem/slim Teddy/Aho-Corasick; NewTeddy; NewFatTeddy; digit; WrapIncomplete; WrapLineAnchor; Tracker fresh and aged to inactivity; WrapWithTracking) is asked Find(h,s) for EVERY start s in [0,len(h)] and FindMatch/LiteralLen where complete; one evaluation = one compared call; distinct_nontrivial = distinct (set, haystack, implementation) triples in which some literal occurs in the haystack",
 		Triage: func(f *Failure) string { return knownC16(f) },
